@@ -27,6 +27,10 @@ func goEnv() []string {
 
 // Load loads the package in dir with the harness files of harnessDir injected
 // as overlay files named zz_verif_<name>.go.
+// SkipFilesMentioning: harness files that call one of these (regions that could not be lifted) are left out;
+// their harnesses are then reported as not found (inconclusive).
+var SkipFilesMentioning []string
+
 func Load(dir string, harnessDirs []string, extra map[string][]byte) (*Loaded, error) {
 	overlay := map[string][]byte{}
 	pkgName := PkgNameOf(dir)
@@ -39,6 +43,15 @@ func Load(dir string, harnessDirs []string, extra map[string][]byte) (*Loaded, e
 			b, err := os.ReadFile(f)
 			if err != nil {
 				return nil, err
+			}
+			skip := false
+			for _, name := range SkipFilesMentioning {
+				if strings.Contains(string(b), name+"(") {
+					skip = true
+				}
+			}
+			if skip {
+				continue
 			}
 			overlay[filepath.Join(dir, "zz_verif_"+filepath.Base(f))] = RewritePackage(b, pkgName)
 		}
